@@ -1,7 +1,7 @@
 (* Proof/TrajP.v — the assembled loop body (Model/Traj.step): what a pass does to the nuclear
    variables, and exact energy conservation across the hop part of the pass. *)
 From Coq Require Import Reals ZArith List Lra Lia Bool.
-From MV Require Import Ops RInst Vec Cplx Mat Poisson Hop Hopper Propagate Traj HopP.
+From MV Require Import Ops RInst Vec Cplx Mat Poisson Hop Hopper Propagate Traj HopP PropagateP Ehrenfest Cumulative.
 Import ListNotations.
 Open Scope R_scope.
 
@@ -43,3 +43,70 @@ Section P.
     apply (hop_energy_exact m v1 _ _ (pact s) _ a' v2 Hm Hv Hd (qa_pos m _ Hd Hm Hn) Eh).
   Qed.
 End P.
+
+(* ---- whole runs ---- *)
+Lemma step_active n m dt poisson zeta e0 e1 lam Cm (s s' : tstate (T:=R)) W hp att :
+  step ROps n m dt poisson zeta e0 e1 lam Cm s = (s', W, hp, att) ->
+  pact s' = match att with Some (t, true) => t | _ => pact s end.
+Proof.
+  unfold step. destruct (hopper ROps poisson _ zeta) as [tg hp'].
+  destruct tg as [t|].
+  - unfold hop_to_it. destruct (hop_allowed _ _ _ _ _); intros H; injection H as <- <- <- <-; reflexivity.
+  - intros H; injection H as <- <- <- <-; reflexivity.
+Qed.
+
+Theorem run_invariants n m dt poisson (ds : list (sdata (T:=R))) : forall s sf atts,
+  run ROps n m dt poisson ds s = (sf, atts) ->
+  length atts = length ds
+  /\ ptime sf = ptime s + INR (length ds) * dt
+  /\ prho sf = exp_steps n (map (fun d => (dlam d, dC d, dt)) ds) (prho s)
+  /\ pact sf = follow (pact s) atts.
+Proof.
+  induction ds as [|d ds IH]; intros s sf atts H.
+  - cbn in H. injection H as <- <-. cbn. repeat split; try reflexivity. lra.
+  - cbn [run] in H.
+    destruct (step ROps n m dt poisson (dzeta d) (de0 d) (de1 d) (dlam d) (dC d) s) as [[[s1 W] hp] att] eqn:Es.
+    destruct (run ROps n m dt poisson ds s1) as [sf' atts'] eqn:Er. injection H as <- <-.
+    destruct (IH s1 sf' atts' Er) as (I1 & I2 & I3 & I4).
+    destruct (step_nuclear n m dt poisson _ _ _ _ _ s s1 W hp att Es) as (_ & Ht & Hr & _).
+    pose proof (step_active _ _ _ _ _ _ _ _ _ _ _ _ _ _ Es) as Ha.
+    repeat split.
+    + cbn [length]. rewrite I1. reflexivity.
+    + rewrite I2, Ht. cbn [length]. rewrite S_INR. lra.
+    + rewrite I3, Hr. reflexivity.
+    + rewrite I4, Ha. reflexivity.
+Qed.
+
+(* ---- Ehrenfest and cumulative passes ---- *)
+
+(* Ehrenfest pass: the label never changes, rho is propagated by the same unitary step (so stays a
+   valid density matrix), and the nuclear half uses the population-weighted force of the density
+   matrix held at the start of the pass *)
+Lemma step_eh_props n m dt e0 e1 lam Cm (s : tstate (T:=R)) :
+  let '(s', W) := step_eh ROps n m dt e0 e1 lam Cm s in
+  pact s' = pact s /\ ptime s' = ptime s + dt /\ prho s' = exp_step ROps n lam Cm dt (prho s)
+  /\ px s' = advance_position ROps m (px s) (pv s) (eh_force_code ROps n (prho s) (eforce e0)) dt
+  /\ pv s' = advance_velocity ROps m (pv s) (eh_force_code ROps n (prho s) (eforce e0)) (eh_force_code ROps n (prho s) (eforce e1)) dt.
+Proof. unfold step_eh. cbn. repeat split; reflexivity. Qed.
+
+(* cumulative pass: same nuclear/electronic halves; an accepted hop conserves energy exactly *)
+Lemma step_cum_hop_energy n m dt e0 e1 lam Cm (s s' : tstate (T:=R)) c c' hp t :
+  step_cum ROps n m dt e0 e1 lam Cm s c = (s', c', hp, Some (t, true)) ->
+  let f0 := nth (pact s) (eforce e0) [] in let f1 := nth (pact s) (eforce e1) [] in
+  let v1 := advance_velocity ROps m (pv s) f0 f1 dt in
+  Forall (fun mi => 0 < mi) m -> length v1 = length m -> length (tget (etau e1) (pact s) t) = length m ->
+  0 < vdot ROps (tget (etau e1) (pact s) t) (tget (etau e1) (pact s) t) ->
+  pact s' = t /\ kinetic ROps m (pv s') + vget ROps (diagE ROps n e1) t
+                 = kinetic ROps m v1 + vget ROps (diagE ROps n e1) (pact s)
+  /\ acc c' = 0.
+Proof.
+  intros H f0 f1 v1. unfold step_cum in H. change (advance_velocity ROps m (pv s) (nth (pact s) (eforce e0) []) (nth (pact s) (eforce e1) []) dt) with v1 in H.
+  destruct (cum_step ROps c _) as [c1 att] eqn:Ec.
+  destruct att as [[[[tg|] z] p]|]; try discriminate.
+  destruct (hop_to_it ROps m v1 (pact s) tg (diagE ROps n e1) (tget (etau e1) (pact s) tg)) as [[a' v2] ac] eqn:Eh.
+  intros Hm Hv Hd Hn. injection H as Hs Hc Hhp Ht Hacc. subst. cbn [pact pv].
+  destruct (hop_energy_exact m v1 _ _ (pact s) _ a' v2 Hm Hv Hd (qa_pos m _ Hd Hm Hn) Eh) as [A B].
+  split; [exact A|]. split; [exact B|].
+  unfold cum_step in Ec. destruct (oltb ROps _ _); [|discriminate].
+  destruct (stream c); [discriminate|]. destruct (draw ROps (zlist c) _) as [[z' zl'] st'']. injection Ec as <- _. reflexivity.
+Qed.
